@@ -96,10 +96,21 @@ class Ctx:
         self.obligations.append(rec)
         self.instances[rule] = self.instances.get(rule, 0) + 1
 
-    def violation(self, rule: str, fi_or_where, node: Optional[ast.AST], message: str, path: Optional[List[str]] = None, file: Optional[str] = None, tag: Optional[str] = None) -> None:
+    def violation(self, rule: str, fi_or_where, node: Optional[ast.AST], message: str, path: Optional[List[str]] = None, file: Optional[str] = None, tag: Optional[str] = None,
+                  robust: bool = False) -> None:
         """``tag``: a name for *what* is wrong, used instead of the normalised statement as the last component of the
         finding's key when the same defect can be written in several shapes (keeps a known finding stable under
-        refactoring without hiding a different defect of the same rule in the same function)."""
+        refactoring without hiding a different defect of the same rule in the same function).
+        ``robust``: the evidence is structural or semantic (a decision procedure, a path / typestate / ownership analysis,
+        evaluated values) and holds however the function is written.  Otherwise the rule compared program text, which is
+        evidence only while the function is close to the shape that was reviewed when the rule was written: on a restructured
+        function the rule reports *undecided* instead (sa/shapes.py)."""
+        if isinstance(fi_or_where, FuncInfo) and not robust and not os.environ.get("SA_NO_SHAPE_GATE"):
+            from .shapes import trusted
+
+            ok, why = trusted(fi_or_where.where, fi_or_where.node)
+            if not ok:
+                raise AnalysisError(f"{fi_or_where.where}: {rule} would report `{message[:140]}` but the function is not in its reviewed shape ({why}); a textual mismatch there is not evidence – undecided")
         if isinstance(fi_or_where, FuncInfo):
             fi = fi_or_where
             where = fi.where
